@@ -424,10 +424,11 @@ class Watch:
     """Observes a Deferred from the moment the API returned it: first result wins, failures are
     consumed (no 'Unhandled error in Deferred' noise), later chaining by the library cannot hide it."""
 
-    def __init__(self, d):
+    def __init__(self, d, passthrough=False):
         self.d = d
         self.st = ("pending",)
         self.fired = 0
+        self.passthrough = passthrough  # an application whose callback lets a failure pass on (addBoth that returns its argument)
         if isinstance(d, defer.Deferred):
             d.addBoth(self._fire)
         else:
@@ -437,11 +438,11 @@ class Watch:
         self.fired += 1
         if self.fired == 1:
             self.st = ("err", r.value) if isinstance(r, failure.Failure) else ("ok", r)
-        return None
+        return r if self.passthrough else None
 
     def state(self):
         return self.st
 
 
-def watch(f):
-    return Watch(f)
+def watch(f, passthrough=False):
+    return Watch(f, passthrough)
